@@ -1,8 +1,10 @@
 package main
 
 import (
+	"fmt"
 	"go/ast"
 	"go/token"
+	"go/types"
 	"strings"
 )
 
@@ -54,32 +56,54 @@ func ruleMappingRule(c *Ctx, r *Report, rule string) {
 		return
 	}
 	nameParam := c.infoFor(setField).Defs[setField.Type.Params.List[0].Names[0]]
-	// tag table construction: tagged[f.Tag.Get("bcl")] = i
+	// tag table construction: <map>[f.Tag.Get("bcl")] = i, in copyBlock or in a helper whose result is the table
 	okTable := false
+	tableFuncs := []*ast.FuncDecl{cb}
 	ast.Inspect(cb.Body, func(n ast.Node) bool {
 		as, ok := n.(*ast.AssignStmt)
-		if !ok || len(as.Lhs) != 1 {
+		if !ok || len(as.Lhs) != 1 || len(as.Rhs) != 1 {
 			return true
 		}
-		ix, ok := as.Lhs[0].(*ast.IndexExpr)
-		if !ok {
-			return true
-		}
-		if id, ok := ix.X.(*ast.Ident); !ok || id.Name != "tagged" {
-			return true
-		}
-		// the key variable must be the direct result of Tag.Get("bcl")
-		if kid, ok := ix.Index.(*ast.Ident); ok {
-			def, n := c.singleDef(cb.Body, c.objOf(kid))
-			if call, ok := def.(*ast.CallExpr); ok && n == 1 && c.calleeName(call) == "reflect.StructTag.Get" {
-				if s, isS := c.strConst(call.Args[0]); isS && s == "bcl" {
-					okTable = true
+		if id, ok := as.Lhs[0].(*ast.Ident); ok && id.Name == "tagged" {
+			if call, ok := as.Rhs[0].(*ast.CallExpr); ok {
+				if fn, ok := c.callee(call).(*types.Func); ok {
+					if hd := c.funcDecls[fn]; hd != nil {
+						tableFuncs = append(tableFuncs, hd)
+					}
 				}
 			}
 		}
 		return true
 	})
-	r.check(okTable, rule, "tag-table", `tagged[f.Tag.Get("bcl")] = i`, "the tag table must be keyed by the raw value of the `bcl` tag", c.pos(cb.Pos()))
+	for _, tf := range tableFuncs {
+		ast.Inspect(tf.Body, func(n ast.Node) bool {
+			as, ok := n.(*ast.AssignStmt)
+			if !ok || len(as.Lhs) != 1 {
+				return true
+			}
+			ix, ok := as.Lhs[0].(*ast.IndexExpr)
+			if !ok {
+				return true
+			}
+			if _, isMap := c.typeOf(ix.X).Underlying().(*types.Map); !isMap {
+				return true
+			}
+			// the key must be the direct result of Tag.Get("bcl")
+			key := ix.Index
+			if kid, ok := key.(*ast.Ident); ok {
+				if def, n := c.singleDef(tf.Body, c.objOf(kid)); n == 1 {
+					key = def
+				}
+			}
+			if call, ok := key.(*ast.CallExpr); ok && c.calleeName(call) == "reflect.StructTag.Get" {
+				if s, isS := c.strConst(call.Args[0]); isS && s == "bcl" {
+					okTable = true
+				}
+			}
+			return true
+		})
+	}
+	r.check(okTable, rule, "tag-table", `table[f.Tag.Get("bcl")] = i`, "the tag table must be keyed by the raw value of the `bcl` tag", c.pos(cb.Pos()))
 	// order inside setField
 	tagAt, nameAt := -1, -1
 	rawKey, underNotOK, cutFirst := false, false, false
@@ -120,49 +144,86 @@ func ruleMappingRule(c *Ctx, r *Report, rule string) {
 	}
 	r.check(tagAt >= 0 && nameAt > tagAt && rawKey, rule, "tag-first", "tagged[name] with the raw key, before name matching", "the tag table must be consulted first, with the unmodified block key", c.pos(setField.Pos()))
 	r.check(underNotOK && cutFirst, rule, "name-fallback", "only on a tag miss: cut the key at its first '.', FieldByNameFunc(unsnakeMatcher(...))", "name matching must run only when the tag lookup missed, on the key cut at its first '.' (strings.Cut)", c.pos(setField.Pos()))
-	// unsnakeMatcher
+	// unsnakeMatcher (and the helpers it calls): one underscore removal on the key, EqualFold, nothing else on strings
 	if _, um := c.find("unsnakeMatcher"); um != nil {
-		okRep, okFold := false, false
-		for _, cs := range c.callsOf(um) {
-			switch cs.Name {
-			case "strings.ReplaceAll":
-				a, ok1 := c.strConst(cs.Call.Args[1])
-				b, ok2 := c.strConst(cs.Call.Args[2])
-				okRep = ok1 && ok2 && a == "_" && b == "" && c.isObj(cs.Call.Args[0], c.paramObj(um, 0))
-			case "strings.EqualFold":
-				okFold = true
-			default:
-				okRep = false
+		okRep, okFold, other := 0, 0, ""
+		var visit func(fd *ast.FuncDecl, depth int)
+		seenFd := map[*ast.FuncDecl]bool{}
+		visit = func(fd *ast.FuncDecl, depth int) {
+			if fd == nil || seenFd[fd] || depth > 3 {
+				return
 			}
-		}
-		r.check(okRep && okFold, rule, "unsnakeMatcher", `EqualFold(field, ReplaceAll(key, "_", ""))`, "unsnakeMatcher must remove underscores from the key and compare case-insensitively (strings.EqualFold), nothing else", c.pos(um.Pos()))
-	} else {
-		r.bad(rule, "unsnakeMatcher", "function not found", "")
-	}
-	// type name check
-	okType := false
-	if len(cb.Body.List) >= 2 {
-		ast.Inspect(cb.Body.List[1], func(n ast.Node) bool {
-			ifs, ok := n.(*ast.IfStmt)
-			if !ok {
-				return true
-			}
-			be, ok := stripParens(ifs.Cond).(*ast.BinaryExpr)
-			if !ok || be.Op != token.LAND {
-				return true
-			}
-			l, ok1 := stripParens(be.X).(*ast.BinaryExpr)
-			ue, ok2 := stripParens(be.Y).(*ast.UnaryExpr)
-			if ok1 && ok2 && l.Op == token.NEQ && ue.Op == token.NOT {
-				if s, isS := c.strConst(l.Y); isS && s == "" {
-					if call, isC := stripParens(ue.X).(*ast.CallExpr); isC && c.calleeName(call) == "unsnakeEq" {
-						okType = true
+			seenFd[fd] = true
+			for _, cs := range c.callsOf(fd) {
+				switch {
+				case cs.Name == "strings.ReplaceAll" && len(cs.Call.Args) == 3:
+					a, ok1 := c.strConst(cs.Call.Args[1])
+					b, ok2 := c.strConst(cs.Call.Args[2])
+					if ok1 && ok2 && a == "_" && b == "" {
+						okRep++
+					} else {
+						other = cs.Name
+					}
+				case cs.Name == "strings.Replace" && len(cs.Call.Args) == 4:
+					a, ok1 := c.strConst(cs.Call.Args[1])
+					b, ok2 := c.strConst(cs.Call.Args[2])
+					n, ok3 := c.intConst(cs.Call.Args[3])
+					if ok1 && ok2 && ok3 && a == "_" && b == "" && n < 0 {
+						okRep++
+					} else {
+						other = cs.Name
+					}
+				case cs.Name == "strings.EqualFold":
+					okFold++
+				case strings.HasPrefix(cs.Name, "strings.") || strings.HasPrefix(cs.Name, "unicode."):
+					other = cs.Name
+				default:
+					if fn, ok := c.callee(cs.Call).(*types.Func); ok && fn.Pkg() != nil && fn.Pkg().Path() == bclPath {
+						visit(c.funcDecls[fn], depth+1)
 					}
 				}
 			}
-			return true
-		})
+		}
+		visit(um, 0)
+		r.check(okRep == 1 && okFold == 1 && other == "", rule, "unsnakeMatcher", `EqualFold(field, key with "_" removed)`, fmt.Sprintf("unsnakeMatcher must remove underscores from the key once and compare with strings.EqualFold, nothing else (removals %d, EqualFold %d, other string call %q)", okRep, okFold, other), c.pos(um.Pos()))
+	} else {
+		r.bad(rule, "unsnakeMatcher", "function not found", "")
 	}
+	// type name check: st != "" && !unsnakeEq(st, bt)  (any equivalent spelling) -> error
+	okType := false
+	ast.Inspect(cb.Body, func(n ast.Node) bool {
+		if _, isLit := n.(*ast.FuncLit); isLit {
+			return false
+		}
+		ifs, ok := n.(*ast.IfStmt)
+		if !ok {
+			return true
+		}
+		init, _ := ifs.Init.(*ast.AssignStmt)
+		atoms, pure := c.nnf(ifs.Cond, true, init).conjuncts()
+		if !pure || len(atoms) != 2 {
+			return true
+		}
+		nonEmpty, mismatch := false, false
+		for _, a := range atoms {
+			if _, isEmpty, ok := c.emptyStringCmp(a); ok && !isEmpty {
+				nonEmpty = true
+			}
+			if call, ok := a.E.(*ast.CallExpr); ok && !a.Pos && c.calleeName(call) == "unsnakeEq" {
+				mismatch = true
+			}
+		}
+		returnsErr := false
+		for _, s := range ifs.Body.List {
+			if rs, ok := s.(*ast.ReturnStmt); ok && len(rs.Results) == 1 && !isNilIdent(rs.Results[0]) {
+				returnsErr = true
+			}
+		}
+		if nonEmpty && mismatch && returnsErr {
+			okType = true
+		}
+		return true
+	})
 	r.check(okType, rule, "type-name", `struct type name != "" && !unsnakeEq(name, block type) -> error`, "a named struct type must be checked against the block type with unsnakeEq, and unnamed struct types skipped", c.pos(cb.Pos()))
 	// Name first
 	firstCall := ""
